@@ -465,7 +465,7 @@ _r: Option<&'a gherkin::Rule>,
 s: &'a gherkin::Scenario,
 w: &'a mut TWorld,
 ) -> LocalBoxFuture<'a, ()> {
-    let s = s.name.clone();
+    let s = crate::universe::ident(s);
     {
         let att = with_ctx(|c| c.started_att.get(&s).copied())
             .map_or(-1, |a| a as i64);
@@ -524,7 +524,7 @@ s: &'a gherkin::Scenario,
 reason: &'a event::ScenarioFinished,
 w: Option<&'a mut TWorld>,
 ) -> LocalBoxFuture<'a, ()> {
-    let s = s.name.clone();
+    let s = crate::universe::ident(s);
     let reason = reason_str(reason);
     let mut w = w;
     {
@@ -760,7 +760,7 @@ fn run_case_inner(
         let which = move |_: &gherkin::Feature,
                           _: Option<&gherkin::Rule>,
                           s: &gherkin::Scenario| {
-            if names.contains(&s.name) {
+            if names.contains(&crate::universe::ident(s)) {
                 ScenarioType::Serial
             } else {
                 ScenarioType::Concurrent
